@@ -393,9 +393,12 @@ Section Off.
     intros Hn Htok Hk Hsh He.
     pose proof (tok_wf _ _ Hn) as Hwf.
     destruct (pos_token _ _ _ _ Hstream Hn) as (Hp0 & _ & _).
-    unfold tok_ok in Htok. rewrite Hk in Htok. destruct Htok as [Htok _].
-    destruct (Htok Hsh) as (pg & Hpg & Hsuf).
-    unfold extract_short in He. rewrite Hpg in He.
+    unfold extract_short in He. cbv zeta in He.
+    destruct (glookup g_page (t_groups t)) as [prefix|];
+      [|match type of He with bind ?x _ = _ => destruct x as [[]|]; discriminate He end].
+    destruct (short_prefix (t_data t) prefix) as [Hp'|(pg & Hp' & Hsuf)]; rewrite Hp' in He.
+    { match type of He with bind ?x _ = _ => destruct x as [[]|]; [|discriminate He] end.
+      cbn [bind extract_pin_cite] in He. discriminate He. }
     set (w := window_bwd MAXC words i true) in *.
     assert (Halen : 0 <= match search PShortAnte w with
                          | Some m => Z.of_nat (m_end m) - Z.of_nat (m_start m)
@@ -1067,8 +1070,7 @@ Proof.
   { intros i t' [H|[]]. injection H as <- <-. reflexivity. }
   split.
   { intros k t' Hk. destruct (Hnth _ _ Hk) as [-> ->]. unfold tok_ok. cbn [t_kind t].
-    split; [|discriminate]. intros _. exists [98%N]. split; [reflexivity|].
-    exists []. reflexivity. }
+    split; [|discriminate]. intros _. exists [98%N]. reflexivity. }
   split; [intros p w m H; discriminate H|].
   split; [intros names s a b gd []|].
   split; [vm_compute; reflexivity|].
